@@ -337,6 +337,10 @@ PINNED = [   # the minimal failing input of every known finding (so that the fin
     ("duplicate-label", "int x; void f(void){ l: x=1; if (x) goto l; l: x=2; }\n"),
     ("noreturn-arm", "_Noreturn void die(void); int f(int c){ return c ? (die(), 1) : 2; }\n"),
     ("dead-code-logic", "int f(int a){ return 1; if (0 && a) return 2; return 3; }\n"),
+    # wide arrays filled exactly by a wide literal (DataSize through the H6-lite sizes): top level, member, 2-D row
+    ("wide-exact-fit", "unsigned short a[2] = u\"ab\"; unsigned b[1] = U\"a\"; struct { unsigned short s[2]; char c; } c = {u\"ab\", 1};\n"
+                       "unsigned short d[2][2] = {u\"ab\", u\"c\"}; unsigned e[2][1] = {U\"a\", U\"b\"}; unsigned short f[3] = u\"ab\";\n"
+                       "void g(void) { static unsigned short h[2] = u\"xy\"; }\n"),
 ]
 
 
